@@ -379,6 +379,8 @@ func (mr *memRepo) BlobCreate(opts ...BlobOpt) (BlobCreator, string, error) {
 		if ok {
 			// the content was pushed again, restart the GC grace period
 			b.m.mod = time.Now()
+			// the repo changed, the scheduled GC has to visit it after the new grace period
+			mr.timeMod = b.m.mod
 			return nil, "", types.ErrBlobExists
 		}
 	}
